@@ -2,6 +2,7 @@
 supplement_basis, image_mod_p}, triangular::mul_inv_from_right_exact."""
 import itertools
 from fractions import Fraction
+import lib
 from lib import line, Id, Case
 
 RULE = ('exhaustive matrices over {-1,0,1}: all 1x1, 2x2, 2x3 (+ every right-hand side for solve, a slice of the V for iim) and a '
@@ -41,6 +42,8 @@ CLAIM = dict(
     ref='DESIGN.md section 4, C18')
 
 # ---------------------------------------------------------------- exact reference linear algebra (independent of the model)
+
+PROFILES = ('debug', 'release')
 
 def F(x): return x if isinstance(x, Fraction) else Fraction(x)
 
@@ -427,6 +430,25 @@ def cases(rng, tier):
             j = rng.randrange(m)
             for row in M: row[j] = 0
         out.append(c_image(M, p, 'image-random'))
+    # ---------------- 4b. image_mod_p for large primes: BigInt entries with p up to beyond a machine word (model and oracle), and the
+    # same generic routine instantiated at i64 with p up to 2^31 - 1 (oracle only; entries in [0, p), so that every product the
+    # routine forms fits the type) -- in both build profiles: a missing reduction wraps in release and panics in dev
+    for _ in range(120 if not th else 1200):
+        p = rng.choice([65537, 16777213, 2147483629, 2147483647, 2 ** 61 - 1, 18446744073709551629])
+        n = rng.randint(1, 5); m = rng.choice([1, 2, 3, 3, 4, 5])
+        M = [[rng.randrange(p) if rng.random() < 0.85 else 0 for _ in range(m)] for _ in range(n)]
+        if rng.random() < 0.6 and n >= 2:
+            for i in range(1, n):
+                if rng.random() < 0.6:
+                    co = [rng.randrange(p) for _ in range(i)]
+                    M[i] = [sum(co[l] * M[l][j] for l in range(i)) % p for j in range(m)]
+        rk = rank_p(M, p)
+        tg = 'image-large-p:%s' % ('full' if rk == min(n, m) else 'deficient')
+        for prof in ('debug', 'release'):
+            out.append(Case('la_image', line('la_image', M, p), oracle=o_image(M, p), nontrivial=m >= 2 and rk >= 1, tag=tg, profile=prof))
+            if p < 2 ** 31:
+                out.append(Case('la_image_i64', line('la_image_i64', M, p), model=lib.IMPL_ONLY, oracle=o_image(M, p), always_oracle=True,
+                                nontrivial=m >= 2 and rk >= 1, tag=tg + ':i64', profile=prof))
     # ---------------- 5. exact right division
     for _ in range(500 if not th else 6000):
         n = rng.randint(1, 6)
